@@ -8,11 +8,12 @@ Events of one System object form one trace; nested calls (rail_rep -> solve, fro
 add_comp) are not logged.  `after == "="` is a log compression: the projection is byte-identical
 to the previously logged one of that object.
 """
+import contextlib
 import copy
 import functools
 import json
 
-from project import project, comp_desc, conf_wire, report_digests, df_canon
+from project import project, comp_desc, conf_wire, report_digests, df_canon, deep_digest, digest
 from decwire import wire, cell
 
 EDIT_OPS = ["add_source", "add_comp", "change_comp", "del_comp", "set_sys_phases", "set_comp_phases"]
@@ -91,6 +92,7 @@ class Recorder:
         self.rng = rng
         self.results = results      # log analysis results (tables)
         self.rep_solve = rep_solve
+        self.deep = False           # log deep digests of the system and of mutable arguments around analyses
         self._orig = {}
         self.installed = False
 
@@ -112,6 +114,15 @@ class Recorder:
         c = copy.deepcopy(s)
         self.adopt(c, origin)
         return c
+
+    @contextlib.contextmanager
+    def paused(self):
+        """calls made inside are not recorded"""
+        self.depth += 1
+        try:
+            yield
+        finally:
+            self.depth -= 1
 
     def mark(self, s):
         """no-op event: the state reached here is the pre-state of all later from0 events"""
@@ -203,6 +214,10 @@ class Recorder:
                                           "kw": {k: (wire(v) if isinstance(v, (str, int, float, bool)) else "obj")
                                                  for k, v in kw.items()} or {"_": 0}},
                       "outcome": "ok"}
+                if rec.deep:
+                    ev["deep0"] = deep_digest(s)
+                    objs = [x for x in list(a) + list(kw.values()) if isinstance(x, (dict, list))]
+                    ev["args0"] = digest(repr(objs))
                 rec.depth += 1
                 try:
                     r = orig(s, *a, **kw)
@@ -217,6 +232,9 @@ class Recorder:
                 finally:
                     rec.depth -= 1
                     ev["after"] = rec._after(s)
+                    if rec.deep:
+                        ev["deep1"] = deep_digest(s)
+                        ev["args1"] = digest(repr(objs))
                     rec.traces[s._vf_tid].append(ev)
             return f
 
